@@ -121,6 +121,15 @@ impl SecondaryStorage {
             dvs_to_open.len()
         );
 
+        // An INSERT or DELETE that raced with DROP TABLE may have committed after the table was
+        // dropped. Its row-sets and DVs belong to no table: forget them (their files are vacuumed
+        // below) instead of failing the open.
+        {
+            let tables = engine.tables.read();
+            rowsets_to_open.retain(|_, entry| tables.contains_key(&entry.table_id));
+            dvs_to_open.retain(|_, entry| tables.contains_key(&entry.table_id));
+        }
+
         let mut changeset = vec![];
 
         if !options.disable_all_disk_operation {
